@@ -65,7 +65,7 @@ func c13RaceOp(rnd *Rand, next *int) c12Op {
 	k := keys[rnd.Intn(3)]
 	*next++
 	v := &c12Val{Tok: *next, Env: -1}
-	kinds := []string{"Define", "Set", "Get", "Delete", "DeleteGlobal", "Symbols", "DefineType", "Type", "TypeSymbols", "Snap", "String", "Addr", "DeepCopy", "Path", "SetExt", "SetExt"}
+	kinds := []string{"Define", "Set", "Get", "Delete", "DeleteGlobal", "Symbols", "DefineType", "Type", "TypeSymbols", "Snap", "String", "Addr", "DeepCopy", "Path", "SetExt", "SetExt", "CopyWrite", "CopyWrite"}
 	return c12Op{K: kinds[rnd.Intn(len(kinds))], E: 1, S: k, V: v, T: 1 + *next%7}
 }
 
@@ -101,6 +101,10 @@ func c13RaceApply(envs []*env.Env, op c12Op) {
 		e.DeepCopy()
 	case "Path":
 		e.GetEnvFromPath([]string{op.S})
+	case "CopyWrite": // a copy is the caller's own: writing it races with nothing
+		c := e.Copy()
+		c.DefineValue("cw", tokValue(op.V.Tok, false))
+		c.Delete("cw")
 	case "SetExt":
 		if op.T%2 == 0 {
 			e.SetExternalLookup(nil)
